@@ -25,8 +25,11 @@ RULES = {
     "functions of a model to read or rewrite device_configurations takes its nodes from all_nodes() / "
     "RecursiveGraphIterator for each of them - iterating a graph or function directly visits top-level nodes only, so "
     "annotations on nodes inside If/Loop bodies would be skipped (cascade removal, placeholder resolution, checker)",
+    "R7": "a sharding reference is resolved to the innermost binding of its name (shared rule S2): every scan of the "
+    "deserializer's scope stack - including the merged table used for ShardingSpec.tensor_name - lets the inner scope win, "
+    "so a spec on a subgraph-local value that shadows an outer name stays bound to an input/output of its own node",
 }
-FLOORS = {"R1": 12, "R2": 4, "R3": 4, "R4": 4, "R5": 4, "R6": 6}
+FLOORS = {"R1": 12, "R2": 4, "R3": 4, "R4": 4, "R5": 4, "R6": 6, "R7": 2}
 EXPLANATION = (
     "Structural checks on the record classes, on every writer of a node's input/output tuples, on the serializer's "
     "name derivation, the C06 write-before-reject analysis for the annotation API, and ordering (dominator) checks in "
@@ -291,3 +294,13 @@ def run(ctx):
     rule_r4(ctx)
     rule_r5(ctx)
     rule_r6(ctx)
+    from ..shared import scope_precedence_sites
+
+    n7 = 0
+    for f, node, form, winner in scope_precedence_sites(ctx.repo):
+        n7 += 1
+        ctx.check("R7", f"{f.local}: {form}", winner == "inner", f, node,
+                  f"{form}: the OUTER scope's binding wins, so the tensor name of a sharding spec inside a subgraph resolves to an enclosing "
+                  "graph's value of the same name - the spec then targets a value that is not an input or output of its node",
+                  how="stack order is outer→inner; form of the scan classified (direction × first-hit/last-write)", construct=form)
+    ctx.require(n7 >= 2, "scope stack scans of the deserializer not found")
